@@ -137,6 +137,14 @@ pub fn generate(g: &mut Gen, thorough: bool) {
         }
         case(g, "default", def, "I", "01", "23", &inv, &icl, "aspects-inv", true);
     }
+    // the apex of a cone (the pole the cone points to) is a point like any other: transformed, counted - once
+    for (def, x_0, y_0) in [("lcc lat_1=57 lat_0=90 lon_0=12", 0.0, 0.0), ("lcc lat_1=-40 lat_2=-50 lat_0=-90 x_0=1000 y_0=-2000 ellps=intl", 1000.0, -2000.0), ("lcc lat_1=33 lat_2=45 lat_0=90 k_0=0.9996 x_0=500000", 500000.0, 0.0)] {
+        let inv = vec![[x_0, y_0, 7.0, 2001.0], [x_0 + 1000.0, y_0 - 5.0e6 * (if def.contains("lat_0=-90") { -1.0 } else { 1.0 }), 0.0, 0.0], [x_0, y_0, 0.0, 0.0]];
+        case(g, "default", def, "I", "01", "23", &inv, "iii", "lcc-apex-inv", true);
+        let pole = if def.contains("lat_0=-90") { -std::f64::consts::FRAC_PI_2 } else { std::f64::consts::FRAC_PI_2 };
+        let fwd = vec![[0.3, pole, 7.0, 2001.0], [0.2, pole * 0.6, 0.0, 0.0], [-2.0, pole, 0.0, 0.0]];
+        case(g, "default", def, "F", "01", "23", &fwd, "iii", "lcc-apex-fwd", true);
+    }
     // lcc: the opposite pole cannot be projected
     for (def, lat) in [("lcc lat_1=57 lat_2=60", -90.0f64), ("lcc lat_1=-33", 90.0), ("lcc lat_1=40 lat_0=30 lon_0=10 x_0=5", -90.0)] {
         let pts = vec![[0.2, lat.to_radians(), 5.0, 2001.0], [0.2, -lat.to_radians() * 0.5, 5.0, 2001.0]];
